@@ -241,7 +241,7 @@ func (m *Model) backfillSites() []*SQLSite {
 		}
 		callsConv := false
 		m.eachCall(s.Fn, func(c ssa.CallInstruction) {
-			if c.Common().StaticCallee() == m.A.Converter {
+			if c.Common().StaticCallee() == m.A.Converter || m.A.ConvWrappers[c.Common().StaticCallee()] {
 				callsConv = true
 			}
 		})
@@ -282,7 +282,7 @@ func (m *Model) rowsHelperCallsConverter(fn *ssa.Function, src ssa.CallInstructi
 			return
 		}
 		m.eachCall(callee, func(c2 ssa.CallInstruction) {
-			if c2.Common().StaticCallee() == m.A.Converter {
+			if c2.Common().StaticCallee() == m.A.Converter || m.A.ConvWrappers[c2.Common().StaticCallee()] {
 				found = true
 			}
 		})
@@ -561,6 +561,24 @@ func (m *Model) ruleEXPSQL(r *Results) {
 			problems = append(problems, "extra conjunct(s) "+strings.Join(extra, ", "))
 		}
 		r.check(len(problems) == 0, rule, key+" / expiry-scan", pos, "due = rows of this collection with 0 < exp <= now", strings.Join(problems, "; "))
+		// Go side: a sweep that walks the collections visits every one of them: the loop that calls
+		// the function holding this scan cannot come round without the call (a collection skipped
+		// on some condition keeps its overdue documents for ever)
+		for _, cl := range m.staticCallersOf(rootOf(s.Fn)) {
+			cb := cl.Block()
+			if cb == nil || !inCycle(cb) {
+				continue
+			}
+			cu := newCut()
+			cu.cutBlock(cb)
+			skip := ""
+			for _, b := range cb.Parent().Blocks {
+				if b != cb && sameCycle(b, cb) && reachableFromSuccs(b, cu)[b.Index] {
+					skip = m.pos(b.Instrs[0].Pos())
+				}
+			}
+			r.check(skip == "", rule, m.declName(cb.Parent())+" / the sweep visits every collection", m.instrPos(cl), "the loop over the collections cannot go on to the next one without sweeping the current one (errors leave the loop)", "the loop that sweeps the collections for expired documents can go on to the next collection without sweeping the current one: documents of a skipped collection stay readable past their expiry, and the timer keeps firing for them")
+		}
 		// Go side: the list of keys to delete is made of the rows of this scan only - it starts
 		// empty (not with what an earlier pass, or another collection's pass, left in a buffer)
 		for _, sc := range m.scansOfSite(s) {
